@@ -18,11 +18,11 @@
     Premises: [collision_free] at every add — the 64-bit content hash does not collide on the contents that
     occur ([C04_collision_breaks_map] shows the premise is necessary); at every save, [save_premises]
     (sizes below the format's limits, a supported internal compression, JSON-object metadata) and the
-    success of the write itself (when leaf directories are needed, termination of the doubling loop is C06's
-    open part).  What is still missing for the full statement: the operation "open arbitrary valid bytes"
+    success of the write itself, which [C04_save_succeeds] derives from size conditions ([save_sizes]) and the
+    codec size law.  What is still missing for the full statement: the operation "open arbitrary valid bytes"
     inside a history (C03's reader-meets-spec theorem); it is covered by the correspondence run and the
     direct oracle (histories starting from foreign archives). *)
-Require Import PM.Base PM.Oracles PM.TileManager PM.TileManagerProofs PM.Archive PM.History PM.HistoryProofs PM.Float PM.Header PM.HeaderProofs PM.DirReader PM.ReopenProofs.
+Require Import PM.Base PM.Oracles PM.TileManager PM.TileManagerProofs PM.Archive PM.History PM.HistoryProofs PM.Float PM.Header PM.HeaderProofs PM.DirReader PM.ReopenProofs PM.TotalityProofs.
 From Coq Require Import Permutation.
 Open Scope N_scope.
 
@@ -55,6 +55,14 @@ Theorem C04_save_reopen : forall cx, codec_inv cx -> forall asy p m b,
     p_max_lon p' = quantize_coord (p_max_lon p) /\ p_max_lat p' = quantize_coord (p_max_lat p) /\
     p_clon p' = quantize_coord (p_clon p) /\ p_clat p' = quantize_coord (p_clat p).
 Proof. exact save_reopen_rep. Qed.
+
+(** ... and the save itself succeeds (so the premise "the write returned Ok" of a history step can be discharged from
+    size conditions alone): [save_sizes] bounds the sections by 2^64 and every leaf directory by 2^32 *)
+Theorem C04_save_succeeds : forall cx, codec_inv cx -> codec_size cx -> forall asy p m,
+  Rep cx p m -> save_premises cx asy p m -> save_sizes cx asy p -> exists b, to_bytes cx asy p = Ok b.
+Proof.
+  intros cx Hi Hs asy p m HR Hp Hz. apply (save_total cx Hs asy p m HR Hp Hz); vm_compute; discriminate.
+Qed.
 
 (** histories that also save and reopen *)
 Theorem C04_refines_map_saves_partial : forall cx, codec_inv cx -> forall ops p m,
